@@ -10,5 +10,6 @@ CONSTANTS
   MaxTop = 1000
   MinKids = 0
   Once = {}
+  SpineDeep = FALSE
 INVARIANTS EmitClass
 CHECK_DEADLOCK FALSE
